@@ -33,6 +33,9 @@ unsafe fn drop_erased<T>(p: *mut ()) {
 }
 unsafe fn drop_nothing(_p: *mut ()) {}
 static mut NEXT_POOL_ID: usize = 7;
+/// Ghost state: how many raw pools exist per drop policy (by construction route; a pool's policy is fixed at creation).
+pub static mut CREATED_MAY_DROP: usize = 0;
+pub static mut CREATED_MUST_NOT_DROP: usize = 0;
 #[derive(Debug)]
 pub struct RawOpaquePool {
     id: usize,
@@ -84,6 +87,13 @@ impl RawOpaquePoolBuilder {
     pub fn build(self) -> RawOpaquePool {
         let mut p = RawOpaquePool::with_layout(self.layout.expect("layout"));
         p.policy = self.policy;
+        if matches!(self.policy, DropPolicy::MustNotDropContents) {
+            // SAFETY: single-threaded harnesses.
+            unsafe {
+                CREATED_MAY_DROP -= 1;
+                CREATED_MUST_NOT_DROP += 1;
+            }
+        }
         p
     }
 }
@@ -128,6 +138,7 @@ impl RawOpaquePool {
         assert!(object_layout.size() > 0);
         // SAFETY: single-threaded harnesses.
         let id = unsafe {
+            CREATED_MAY_DROP += 1;
             NEXT_POOL_ID += 1;
             NEXT_POOL_ID
         };
@@ -814,6 +825,40 @@ mod harness {
         // SAFETY: removed once.
         unsafe { pool.remove(d) };
         assert!(drops(3) == 1 && pool.is_empty());
+    }
+
+    /// C02 (drop policy): every inner pool a RawBlindPool ever creates - through insert OR through reserve_for, in
+    /// either order - carries the blind pool's own drop policy, so "panics on drop iff non-empty" (the raw pool's
+    /// contract, proved in-crate) holds for the blind pool as a whole. Seed C02-d created reserve-first pools with the
+    /// default policy.
+    #[kani::proof]
+    #[kani::unwind(6)]
+    fn raw_blind_drop_policy_reaches_every_inner_pool() {
+        let strict: bool = kani::any();
+        let policy = if strict { DropPolicy::MustNotDropContents } else { DropPolicy::MayDropContents };
+        let mut pool = RawBlindPool::builder().drop_policy(policy).build();
+        if kani::any() {
+            pool.reserve_for::<Counted>(1);
+        }
+        let a = pool.insert(Counted { id: 0, pad: 1 });
+        if kani::any() {
+            pool.reserve_for::<Big>(2);
+        }
+        let b = pool.insert(Big { id: 1, x: 2 });
+        if kani::any() {
+            pool.reserve_for::<Twin>(1);
+        }
+        // SAFETY: single-threaded harness.
+        let (may, must) = unsafe { (CREATED_MAY_DROP, CREATED_MUST_NOT_DROP) };
+        assert!(may + must == 2, "one inner pool per layout");
+        assert!(if strict { must == 2 } else { may == 2 }, "C02.drop_policy_reaches_every_inner_pool");
+        assert!(pool.len() == 2);
+        // SAFETY: each handle is removed once.
+        unsafe {
+            pool.remove(a);
+            pool.remove(b);
+        }
+        assert!(drops(0) == 1 && drops(1) == 1 && pool.is_empty());
     }
 
     /// C04: when user code run by a managed pool panics, the pool lock is released before the panic continues.
